@@ -950,3 +950,75 @@ package hermes
 //@   prove applied: t == s0 + lag ==> t + 1 <= s1 + lag
 //@   prove waiting: t != s0 + lag ==> t + 1 <= s0 + lag
 //@   prove ontime: t == s0 + lag ==> t >= s0 && t <= s0 + 1
+
+// ---------------------------------------------------------------------------
+// C04  weather: documented normalisations only, calendar lock-step, loader errors end the run
+// month index (0-based) of a day of year in the non-leap table the rain correction is documented with
+//@ global define monthidx(T) = ite(T > cum(1901, 2), 1, 0) + ite(T > cum(1901, 3), 1, 0) + ite(T > cum(1901, 4), 1, 0) + ite(T > cum(1901, 5), 1, 0) + ite(T > cum(1901, 6), 1, 0) + ite(T > cum(1901, 7), 1, 0) + ite(T > cum(1901, 8), 1, 0) + ite(T > cum(1901, 9), 1, 0) + ite(T > cum(1901, 10), 1, 0) + ite(T > cum(1901, 11), 1, 0) + ite(T > cum(1901, 12), 1, 0)
+//@ func corrArr.getCorrValue
+//@   serves C04
+//@   requires table: len(CORRK) >= 12
+//@   ensures month: \result == CORRK[monthidx(T)]
+
+//@ func WeatherDataShared.transformWeatherData
+//@   serves C04
+//@   requires years: 0 <= yrz && yrz <= len(s.MaxYearDays) && yrz <= len(s.REG) && yrz <= len(s.RADI) && yrz <= len(s.WIN)
+//@   requires days: forall(y, 0, yrz, 0 <= s.MaxYearDays[y] && s.MaxYearDays[y] <= 366)
+//@   requires table: len(corr) >= 12
+//@   ensures rain: forall(y, 0, yrz, forall(i, 0, s.MaxYearDays[y], s.REG[y][i] == old(s.REG[y][i])/10*corr[monthidx(i+1)]))
+//@   ensures par: forall(y, 0, yrz, forall(i, 0, s.MaxYearDays[y], s.RADI[y][i] == old(s.RADI[y][i])/2))
+//@   ensures windfloor: forall(y, 0, yrz, forall(i, 0, s.MaxYearDays[y], s.WIN[y][i] == max(old(s.WIN[y][i]), 0.5)))
+//@   ensures days: s.MaxYearDays == old(s.MaxYearDays)
+//@   safety index
+//@ loop WeatherDataShared.transformWeatherData#1
+//@   invariant range: 0 <= \i && \i <= yrz
+//@   invariant done: forall(y, 0, \i, forall(i, 0, s.MaxYearDays[y], s.REG[y][i] == old(s.REG[y][i])/10*corr[monthidx(i+1)] && s.RADI[y][i] == old(s.RADI[y][i])/2 && s.WIN[y][i] == max(old(s.WIN[y][i]), 0.5)))
+//@   invariant rest: forall(y, \i, yrz, s.REG[y] == old(s.REG[y]) && s.RADI[y] == old(s.RADI[y]) && s.WIN[y] == old(s.WIN[y]))
+//@   invariant lens: len(s.REG) == old(len(s.REG)) && len(s.RADI) == old(len(s.RADI)) && len(s.WIN) == old(len(s.WIN)) && s.MaxYearDays == old(s.MaxYearDays) && len(s.MaxYearDays) == old(len(s.MaxYearDays))
+//@ loop WeatherDataShared.transformWeatherData#2
+//@   invariant range: 0 <= \i && \i <= T && T == s.MaxYearDays[y]
+//@   invariant done: forall(i, 0, \i, s.REG[y][i] == old(s.REG)[y][i]/10*corr[monthidx(i+1)] && s.RADI[y][i] == old(s.RADI)[y][i]/2 && s.WIN[y][i] == max(old(s.WIN)[y][i], 0.5))
+//@   invariant todo: forall(i, \i, 366, s.REG[y][i] == old(s.REG)[y][i] && s.RADI[y][i] == old(s.RADI)[y][i] && s.WIN[y][i] == old(s.WIN)[y][i])
+//@   invariant others: forall(z, 0, yrz, z != y ==> s.REG[z] == pre(s.REG[z]) && s.RADI[z] == pre(s.RADI[z]) && s.WIN[z] == pre(s.WIN[z]))
+//@   invariant lens: len(s.REG) == old(len(s.REG)) && len(s.RADI) == old(len(s.RADI)) && len(s.WIN) == old(len(s.WIN)) && s.MaxYearDays == old(s.MaxYearDays) && len(s.MaxYearDays) == old(len(s.MaxYearDays))
+
+// missing optional values: mean of the two calendar neighbours (the day after 31 Dec is 1 Jan of the next year), 0 when a
+// neighbour is missing or outside the series; mandatory series only have the sentinel replaced by 0
+//@ func WeatherDataShared.replaceMissingValues
+//@   serves C04
+//@   define T(y) = s.MaxYearDays[y]
+//@   define both(y, i) = (i > 0 || y > 0) && (i+1 < T(y) || y+1 < yrz)
+//@   define pY(y, i) = ite(i > 0, y, y-1)
+//@   define pI(y, i) = ite(i > 0, i-1, T(y-1)-1)
+//@   define nY(y, i) = ite(i+1 < T(y), y, y+1)
+//@   define nI(y, i) = ite(i+1 < T(y), i+1, 0)
+//@   define fill(A, A0, y, i) = ite(both(y, i), ite(A0[y][i] == noneValue && A[pY(y, i)][pI(y, i)] != noneValue && A0[nY(y, i)][nI(y, i)] != noneValue, (A[pY(y, i)][pI(y, i)] + A0[nY(y, i)][nI(y, i)])/2, A0[y][i]), ite(A0[y][i] == noneValue, 0.0, A0[y][i]))
+//@   define zeroed(v) = ite(v == noneValue, 0.0, v)
+//@   requires years: 0 <= yrz && yrz <= len(s.MaxYearDays) && yrz <= len(s.TMP) && yrz <= len(s.VERD) && yrz <= len(s.SUND) && yrz <= len(s.RADI) && yrz <= len(s.REG)
+//@   requires days: forall(y, 0, yrz, 1 <= s.MaxYearDays[y] && s.MaxYearDays[y] <= 366)
+//@   ensures[C04] tmp: forall(y, 0, yrz, forall(i, 0, T(y), s.TMP[y][i] == fill(s.TMP, old(s.TMP), y, i)))
+//@   ensures[C04.a] verd: forall(y, 0, yrz, forall(i, 0, T(y), s.VERD[y][i] == fill(s.VERD, old(s.VERD), y, i)))
+//@   ensures[C04.b] rad: forall(y, 0, yrz, forall(i, 0, T(y), s.RADI[y][i] == zeroed(old(s.RADI)[y][i]) && s.REG[y][i] == zeroed(old(s.REG)[y][i])))
+//@   ensures days: s.MaxYearDays == old(s.MaxYearDays)
+//@   safety[C04] index
+//@ loop WeatherDataShared.replaceMissingValues#1
+//@   invariant range: 0 <= \i && \i <= yrz
+//@   invariant lens: len(s.TMP) == old(len(s.TMP)) && len(s.VERD) == old(len(s.VERD)) && len(s.SUND) == old(len(s.SUND)) && len(s.RADI) == old(len(s.RADI)) && len(s.REG) == old(len(s.REG)) && s.MaxYearDays == old(s.MaxYearDays) && len(s.MaxYearDays) == old(len(s.MaxYearDays))
+//@   invariant[C04] tmpdone: forall(y, 0, \i, forall(i, 0, T(y), s.TMP[y][i] == fill(s.TMP, old(s.TMP), y, i)))
+//@   invariant[C04] tmprest: forall(y, \i, yrz, s.TMP[y] == old(s.TMP)[y])
+//@   invariant[C04.a] verddone: forall(y, 0, \i, forall(i, 0, T(y), s.VERD[y][i] == fill(s.VERD, old(s.VERD), y, i)))
+//@   invariant[C04.a] verdrest: forall(y, \i, yrz, s.VERD[y] == old(s.VERD)[y])
+//@   invariant[C04.b] raddone: forall(y, 0, \i, forall(i, 0, T(y), s.RADI[y][i] == zeroed(old(s.RADI)[y][i]) && s.REG[y][i] == zeroed(old(s.REG)[y][i])))
+//@   invariant[C04.b] radrest: forall(y, \i, yrz, s.RADI[y] == old(s.RADI)[y] && s.REG[y] == old(s.REG)[y])
+//@ loop WeatherDataShared.replaceMissingValues#2
+//@   invariant range: 0 <= \i && \i <= T && T == s.MaxYearDays[y] && 0 <= y && y < yrz
+//@   invariant lens: len(s.TMP) == old(len(s.TMP)) && len(s.VERD) == old(len(s.VERD)) && len(s.SUND) == old(len(s.SUND)) && len(s.RADI) == old(len(s.RADI)) && len(s.REG) == old(len(s.REG)) && s.MaxYearDays == old(s.MaxYearDays) && len(s.MaxYearDays) == old(len(s.MaxYearDays))
+//@   invariant[C04] tmpyears: forall(z, 0, y, forall(i, 0, T(z), s.TMP[z][i] == fill(s.TMP, old(s.TMP), z, i)))
+//@   invariant[C04] tmpdone: forall(i, 0, \i, s.TMP[y][i] == fill(s.TMP, old(s.TMP), y, i))
+//@   invariant[C04] tmptodo: forall(i, \i, 366, s.TMP[y][i] == old(s.TMP)[y][i]) && forall(z, y+1, yrz, s.TMP[z] == old(s.TMP)[z])
+//@   invariant[C04.a] verdyears: forall(z, 0, y, forall(i, 0, T(z), s.VERD[z][i] == fill(s.VERD, old(s.VERD), z, i)))
+//@   invariant[C04.a] verddone: forall(i, 0, \i, s.VERD[y][i] == fill(s.VERD, old(s.VERD), y, i))
+//@   invariant[C04.a] verdtodo: forall(i, \i, 366, s.VERD[y][i] == old(s.VERD)[y][i]) && forall(z, y+1, yrz, s.VERD[z] == old(s.VERD)[z])
+//@   invariant[C04.b] radyears: forall(z, 0, y, forall(i, 0, T(z), s.RADI[z][i] == zeroed(old(s.RADI)[z][i]) && s.REG[z][i] == zeroed(old(s.REG)[z][i])))
+//@   invariant[C04.b] raddone: forall(i, 0, \i, s.RADI[y][i] == zeroed(old(s.RADI)[y][i]) && s.REG[y][i] == zeroed(old(s.REG)[y][i]))
+//@   invariant[C04.b] radtodo: forall(i, \i, 366, s.RADI[y][i] == old(s.RADI)[y][i] && s.REG[y][i] == old(s.REG)[y][i]) && forall(z, y+1, yrz, s.RADI[z] == old(s.RADI)[z] && s.REG[z] == old(s.REG)[z])
